@@ -692,7 +692,7 @@ class JobNew(FSContract):
 
 class OpenJobBySP(FSContract):
     target = f"{PRJ}.Project.open_job"
-    properties = ("C01", "C02", "C03", "C12")
+    properties = ("C01", "C02", "C03", "C04", "C12")
     inline = GETTERS + (f"{JOB}.Job.__init__", f"{JOB}.Job._initialize_lazy_properties")
     # not called by the current code (callee view of ContainsJobId, contracts/project.py): a handle opened from a state point knows that state
     # point whether or not a directory of that id exists already -- a directory is no proof that the job is initialised (C12: two processes
